@@ -29,6 +29,12 @@ func (e *sched) zeroOf(t types.Type) sVal {
 		return sOpaque{"zero " + t.String()}
 	case *types.Pointer, *types.Slice, *types.Interface, *types.Map, *types.Signature:
 		return sNil{}
+	case *types.Struct:
+		sv := sStruct{make([]sVal, u.NumFields())}
+		for i := range sv.f {
+			sv.f[i] = e.zeroOf(u.Field(i).Type())
+		}
+		return sv
 	}
 	return sOpaque{"zero " + t.String()}
 }
@@ -46,6 +52,13 @@ func (e *sched) step(st *sState, in ssa.Instruction) {
 			}
 			st.heap[id] = arr
 			st.vals[x] = sPtr{id, -1}
+		} else if stt, ok := elemT.Underlying().(*types.Struct); ok {
+			obj := &hArray{elems: make([]sVal, stt.NumFields())}
+			for i := range obj.elems {
+				obj.elems[i] = e.zeroOf(stt.Field(i).Type())
+			}
+			st.heap[id] = obj
+			st.vals[x] = sPtr{id, -1}
 		} else {
 			st.heap[id] = &hArray{elems: []sVal{e.zeroOf(elemT)}}
 			st.vals[x] = sPtr{id, 0}
@@ -60,6 +73,14 @@ func (e *sched) step(st *sState, in ssa.Instruction) {
 					e.ghostStore(st, p.idx, v, e.p.InstrPos(x))
 				}
 				return
+			}
+		}
+		if p, ok := addr.(sPtr); ok && p.idx == -1 {
+			if sv, ok := v.(sStruct); ok {
+				if obj, ok := st.heap[p.id].(*hArray); ok && len(obj.elems) == len(sv.f) {
+					copy(obj.elems, sv.f)
+					return
+				}
 			}
 		}
 		// whole-array assignment: *dst = *src
@@ -86,6 +107,10 @@ func (e *sched) step(st *sState, in ssa.Instruction) {
 						return
 					}
 					if p.idx == -1 {
+						if _, isStruct := x.Type().Underlying().(*types.Struct); isStruct {
+							st.vals[x] = sStruct{append([]sVal(nil), arr.elems...)}
+							return
+						}
 						st.vals[x] = p // array value: keep as reference
 						return
 					}
@@ -303,7 +328,11 @@ func (e *sched) step(st *sState, in ssa.Instruction) {
 		}
 		st.vals[x] = sOpaque{"field"}
 	case *ssa.Field:
-		st.vals[x] = sOpaque{"field"}
+		if sv, ok := e.get(st, x.X).(sStruct); ok && x.Field < len(sv.f) {
+			st.vals[x] = sv.f[x.Field]
+		} else {
+			st.vals[x] = sOpaque{"field"}
+		}
 	case *ssa.MakeSlice:
 		st.vals[x] = sOpaque{"make"}
 	case *ssa.Extract:
@@ -368,6 +397,39 @@ func (e *sched) pointArg(st *sState, v sVal, what string) (pform, bool) {
 func (e *sched) summary(st *sState, call *ssa.Call, cal *ssa.Function, args []sVal) (sVal, bool) {
 	name := e.p.FuncName(cal)
 	pos := e.p.InstrPos(call)
+	if e.expMode {
+		// addition chains: x^a * x^b = x^(a+b), (x^a)^2 = x^(2a)
+		short := strings.TrimPrefix(name, "sm2/internal/fiat.")
+		if short == "sm2Mul" || short == "sm2ScalarMul" || short == "sm2Square" || short == "sm2ScalarSquare" {
+			expOf := func(v sVal) (pform, bool) {
+				if p, ok := v.(sPtr); ok && p.idx == -1 && st.exps != nil {
+					f, ok := st.exps[p.id]
+					return f, ok
+				}
+				return nil, false
+			}
+			out, okO := args[0].(sPtr)
+			a, okA := expOf(args[1])
+			var res pform
+			if strings.HasSuffix(short, "Square") {
+				if okA {
+					res = pfScale(a, big.NewInt(2))
+				}
+			} else if b, okB := expOf(args[2]); okA && okB {
+				res = pfAdd(a, b)
+			}
+			if !okO || out.idx != -1 || res == nil {
+				e.fail("%s at %s: an operand has no value yet (read before it was assigned)", short, pos)
+				return sNil{}, true
+			}
+			if st.exps == nil {
+				st.exps = map[int]pform{}
+			}
+			st.exps[out.id] = res
+			e.expOps++
+			return sNil{}, true
+		}
+	}
 	switch name {
 	case "sm2/internal.NewSM2Point":
 		id := e.newID()
@@ -720,10 +782,46 @@ func (e *sched) intervalDecision(st *sState, c sCond) (value, known, applicable 
 	return false, false, true
 }
 
+// affine1: the condition's value depends on exactly one free bit atom; returns which values of the atom satisfy it
+func (e *sched) affine1(st *sState, c sCond) (atom string, sat [2]bool, ok bool) {
+	if c.sym.bits != nil || c.len {
+		return "", sat, false
+	}
+	for a := range c.sym.lin {
+		if a == "" || st.zeros[a] || st.ones[a] {
+			continue
+		}
+		if isDigitAtom(a) || strings.HasPrefix(a, "len(") || atom != "" {
+			return "", sat, false
+		}
+		atom = a
+	}
+	if atom == "" {
+		return "", sat, false
+	}
+	k := new(big.Rat).SetInt(c.c)
+	for v := int64(0); v < 2; v++ {
+		sum := new(big.Rat)
+		for a, co := range c.sym.lin {
+			switch {
+			case a == "" || st.ones[a]:
+				sum.Add(sum, co)
+			case a == atom:
+				sum.Add(sum, new(big.Rat).Mul(co, big.NewRat(v, 1)))
+			}
+		}
+		sat[v] = cmpHolds(sum.Cmp(k), c.op)
+	}
+	return atom, sat, true
+}
+
 func (e *sched) condKnown(st *sState, c sCond) (bool, bool) {
 	c = normCond(c)
 	if c.len {
 		return false, false
+	}
+	if _, sat, ok := e.affine1(st, c); ok && sat[0] == sat[1] {
+		return sat[0], true
 	}
 	if c.c.Sign() != 0 && !(c.c.Cmp(big.NewInt(1)) == 0 && (c.op == token.LSS || c.op == token.GEQ)) {
 		v, known, _ := e.intervalDecision(st, c)
@@ -774,6 +872,19 @@ func (e *sched) assumeCond(st *sState, c0 *sCond, outcome bool) bool {
 	}
 	cn := normCond(*c0)
 	c := &cn
+	if atom, sat, ok := e.affine1(st, cn); ok {
+		// the outcome pins the bit when exactly one of its values produces it
+		v0, v1 := sat[0] == outcome, sat[1] == outcome
+		switch {
+		case v0 && !v1:
+			st.zeros[atom] = true
+		case v1 && !v0:
+			st.ones[atom] = true
+		case !v0 && !v1:
+			return false
+		}
+		return true
+	}
 	op := c.op
 	if _, okSign := e.signSet(st, c.sym); !okSign || (c.c.Sign() != 0 && !(c.c.Cmp(big.NewInt(1)) == 0 && (op == token.LSS || op == token.GEQ))) {
 		// a comparison the sign domain cannot refine: both outcomes stay possible when the range straddles the constant
@@ -1111,6 +1222,13 @@ func (e *sched) builtin(st *sState, b *ssa.Builtin, call *ssa.Call) sVal {
 // ---------- merging ----------
 
 func sameConcrete(a, b sVal) (differ bool) {
+	if sa, ok := a.(sStruct); ok {
+		sb, ok := b.(sStruct)
+		if !ok {
+			return true
+		}
+		return sameConcrete(sa.f, sb.f)
+	}
 	if ta, ok := a.([]sVal); ok {
 		tb, ok := b.([]sVal)
 		if !ok || len(ta) != len(tb) {
@@ -1181,6 +1299,8 @@ func (e *sched) mergeVal(s1, s2 *sState, a, b sVal) sVal {
 		return a
 	case sPTable:
 		return a
+	case sStruct:
+		return a
 	case sInt:
 		if y, ok := b.(sInt); ok && x.v.Cmp(y.v) == 0 {
 			return a
@@ -1191,6 +1311,9 @@ func (e *sched) mergeVal(s1, s2 *sState, a, b sVal) sVal {
 		return sOpaque{"joined value"}
 	}
 	if _, ok := b.(sPTable); ok {
+		return sOpaque{"joined value"}
+	}
+	if _, ok := b.(sStruct); ok {
 		return sOpaque{"joined value"}
 	}
 	if a == b {
@@ -1351,18 +1474,21 @@ func (e *sched) tryMerge(t, s *sState, relevant func(ssa.Value) bool) bool {
 		if !ok || pfEqual(hp.form, h2.form) {
 			continue
 		}
-		at := pfDiffAtoms(hp.form, h2.form)
+		if f, ok := reconcile(t, hp.form, s, h2.form); ok {
+			newForms[id] = f
+			continue
+		}
+		if f, ok := reconcile(s, h2.form, t, hp.form); ok {
+			newForms[id] = f
+			continue
+		}
 		switch {
-		case s.allZero(at):
-			newForms[id] = hp.form
-		case t.allZero(at):
-			newForms[id] = h2.form
 		case t.nullDiff(hp.form, h2.form):
 			newForms[id] = h2.form
 		case s.nullDiff(hp.form, h2.form):
 			newForms[id] = hp.form
 		default:
-			e.fail("cannot join two point values that differ in %v (neither side knows these symbols to be zero)", firstN(at, 4))
+			e.fail("cannot join two point values that differ in %v (neither side knows these symbols to be zero)", firstN(pfDiffAtoms(hp.form, h2.form), 4))
 			return false
 		}
 	}
